@@ -101,24 +101,48 @@ func c16Props(spec string) []*executor.BtcTransferProposal {
 	return ps
 }
 
-// utxos `txid,vout,value,blocktime`
+// utxos `txid,vout,value,blocktime[,c|u]`  (u = unconfirmed: status.confirmed false, and no block fields when blocktime is 0)
 func c16Utxos(spec string) []mempool.Utxo {
 	us := []mempool.Utxo{}
 	for _, it := range items(spec, ";") {
 		f := strings.Split(it, ",")
-		us = append(us, mempool.Utxo{TxID: f[0], Vout: uint32(u64(f[1])), Value: u64(f[2]),
-			Status: mempool.Status{Confirmed: true, BlockTime: u64(f[3]), BlockHeight: 5}})
+		conf := len(f) < 5 || f[4] != "u"
+		u := mempool.Utxo{TxID: f[0], Vout: uint32(u64(f[1])), Value: u64(f[2]),
+			Status: mempool.Status{Confirmed: conf, BlockTime: u64(f[3])}}
+		if conf {
+			u.Status.BlockHeight = 5
+		}
+		us = append(us, u)
 	}
 	return us
 }
 
+// the JSON the mempool.space API sends: unconfirmed outputs carry only {"confirmed":false}
 func c16UtxoJSON(us []mempool.Utxo) string {
 	xs := []string{}
 	for _, u := range us {
-		xs = append(xs, fmt.Sprintf(`{"txid":%q,"vout":%d,"status":{"confirmed":true,"block_height":5,"block_hash":"00","block_time":%d},"value":%d}`,
-			u.TxID, u.Vout, u.Status.BlockTime, u.Value))
+		st := fmt.Sprintf(`{"confirmed":true,"block_height":5,"block_hash":"00","block_time":%d}`, u.Status.BlockTime)
+		if !u.Status.Confirmed {
+			st = `{"confirmed":false}`
+			if u.Status.BlockTime != 0 {
+				st = fmt.Sprintf(`{"confirmed":false,"block_time":%d}`, u.Status.BlockTime)
+			}
+		}
+		xs = append(xs, fmt.Sprintf(`{"txid":%q,"vout":%d,"status":%s,"value":%d}`, u.TxID, u.Vout, st, u.Value))
 	}
 	return "[" + strings.Join(xs, ",") + "]"
+}
+
+func c16ShowUtxos(us []mempool.Utxo) string {
+	out := []string{}
+	for _, u := range us {
+		c := "c"
+		if !u.Status.Confirmed {
+			c = "u"
+		}
+		out = append(out, fmt.Sprintf("%s:%d:%d:%d:%s", u.TxID, u.Vout, u.Value, u.Status.BlockTime, c))
+	}
+	return joinOr(out, ",")
 }
 
 func c16ShowTx(tx *wire.MsgTx, used []mempool.Utxo) string {
@@ -263,11 +287,42 @@ func init() {
 		if err != nil {
 			return "err"
 		}
+		return c16ShowUtxos(us)
+	}
+	// utxoperm <listing1> <listing2>  =>  <answer1>|<answer2>: the real Utxos on two listings of the same set
+	ops["C16.utxoperm"] = func(a []string) string {
 		out := []string{}
-		for _, u := range us {
-			out = append(out, fmt.Sprintf("%s:%d:%d:%d", u.TxID, u.Vout, u.Value, u.Status.BlockTime))
+		for _, l := range a[:2] {
+			us, err := c16Serve(c16Utxos(l), "1").Utxos("addr")
+			if err != nil {
+				out = append(out, "err")
+			} else {
+				out = append(out, c16ShowUtxos(us))
+			}
 		}
-		return joinOr(out, ",")
+		return strings.Join(out, "|")
+	}
+	// buildperm <rate> <cid> <bridge> <props> <listing1> <listing2>  =>  <tx1|err>#<tx2|err>: real MempoolAPI + rawTx on both listings
+	ops["C16.buildperm"] = func(a []string) string {
+		out := []string{}
+		for _, l := range a[4:6] {
+			api := c16Serve(c16Utxos(l), a[0])
+			up := &c16Uploader{}
+			if a[1] == "x" {
+				up.fail = true
+			} else {
+				up.cid = string(unhx(a[1]))
+			}
+			ps := c16Props(a[3])
+			res := config.Resource{Address: c16Bridge(strings.Split(a[2], ":")[0]), ResourceID: [32]byte{9}, FeeAmount: big.NewInt(0)}
+			tx, used, err := c16Exec(api, up).VerifC16RawTx(ps, res)
+			if err != nil {
+				out = append(out, "err")
+			} else {
+				out = append(out, c16ShowTx(tx, used)+c16Uploaded(up, ps))
+			}
+		}
+		return strings.Join(out, "#")
 	}
 	// fee <rate> <inputs> <outputs>  =>  decimal | err
 	ops["C16.fee"] = func(a []string) string {
@@ -517,6 +572,13 @@ func genC16(g *G) {
 			}
 		case 3:
 			total = amount + fee + uint64(g.Intn(100000))
+			if g.Intn(3) == 0 && fee > 0 { // a nearly empty bridge: amount <= total < fee
+				amount0 := amount
+				if amount0 >= fee {
+					amount0 = fee - 1
+				}
+				total = amount0 + uint64(g.Intn(int(fee-amount0)))
+			}
 		default:
 			total = amount + fee*uint64(1+g.Intn(3)) + g.U64()%1000000
 		}
@@ -526,6 +588,7 @@ func genC16(g *G) {
 		us := []string{}
 		pool := []string{}
 		rest := total
+		unconf := []int{0, 0, 4, 2, 1}[g.Intn(5)] // 0 = all confirmed; n = each UTXO unconfirmed with probability 1/n
 		for k := 0; k < nu; k++ {
 			v := rest
 			if k < nu-1 {
@@ -538,7 +601,11 @@ func genC16(g *G) {
 			id := c16Txid(g, pool)
 			pool = append(pool, id)
 			bt := 1000 + uint64(g.Intn(3))
-			us = append(us, fmt.Sprintf("%s,%d,%d,%d", id, g.Intn(3), v, bt))
+			u := fmt.Sprintf("%s,%d,%d,%d", id, g.Intn(3), v, bt)
+			if unconf > 0 && g.Intn(unconf) == 0 { // still in the mempool: no block time, confirmed=false
+				u = fmt.Sprintf("%s,%d,%d,0,u", id, g.Intn(3), v)
+			}
+			us = append(us, u)
 		}
 		if g.Intn(3) == 0 { // spare UTXOs beyond the aimed total
 			for k := 0; k < 1+g.Intn(3); k++ {
@@ -575,7 +642,79 @@ func genC16(g *G) {
 			g.Emit("build", rs, c, br, joinOr(ps, ";"), joinOr(l2, ";"))
 			g.Emit("utxos", joinOr(l1, ";"))
 			g.Emit("utxos", joinOr(l2, ";"))
+			g.Emit("utxoperm", joinOr(l1, ";"), joinOr(l2, ";"))
+			g.Emit("buildperm", rs, c, br, joinOr(ps, ";"), joinOr(l1, ";"), joinOr(l2, ";"))
 		}
+	}
+	// --- a nearly empty bridge: amount <= total of ALL UTXOs < fee (an unsigned `inputs - fee` would wrap here)
+	for _, rate := range []uint64{1, 5} {
+		for np := 1; np <= 2; np++ {
+			props := "100," + r1 + "," + s1
+			amount := uint64(100)
+			if np == 2 {
+				props = "300," + r1 + "," + s1 + ";200," + r2 + "," + s2
+				amount = 500
+			}
+			for nu := 1; nu <= 2; nu++ {
+				fee := c16FeeGo(rate, uint64(nu), uint64(np)+1)
+				for _, t := range []uint64{amount, amount + 1, amount + 250, (amount + fee) / 2, fee - 1, fee, fee + 1, amount + fee - 1, amount + fee} {
+					us := []string{fmt.Sprintf("%s,0,%d,1000", tx(1), t)}
+					if nu == 2 {
+						us = []string{fmt.Sprintf("%s,0,%d,1000", tx(1), t/2+50), fmt.Sprintf("%s,1,%d,1000", tx(1), t-t/2-50)}
+					}
+					g.Emit("rawtx", utoa(rate), cid, br, props, joinOr(us, ";"))
+				}
+			}
+		}
+	}
+	// --- zero-amount proposals (dust deposits scale down to 0): still one output each, still a valid recipient required
+	big1 := tx(1) + ",0,90000,1000"
+	for _, ps := range []string{
+		"2500," + r1 + "," + s1 + ";0," + r2 + "," + s2 + ";300," + r1 + "," + s1,
+		"0," + r1 + "," + s1,
+		"0," + r1 + "," + s1 + ";0," + r2 + "," + s2,
+		"0," + r2 + "," + s2 + ";2500," + r1 + "," + s1,
+		"100," + r1 + "," + s1 + ";0,not_an_address,x",
+		"0,not_an_address,x",
+		"0,-,x;100," + r1 + "," + s1,
+		"0,tb1qqqqqqqqqqqqqqqqqqqqqqqqqqqqqqqqqqqqqqq,x;2500," + r1 + "," + s1,
+	} {
+		g.Emit("rawtx", "1", cid, br, ps, big1)
+		g.Emit("rawtx", "1", cid, br, ps, tx(1)+",0,900,1000;"+tx(2)+",0,90000,1001")
+		g.Emit("build", "1", cid, br, ps, big1)
+	}
+	// --- unconfirmed outputs (confirmed=false, no block time): several at once, mixed with confirmed ones, every listing order.
+	//     Same set in any order => same list (utxos, utxoperm) and same transaction (buildperm; the 9000-sat proposal needs 2-3 inputs).
+	ucSets := [][]string{
+		{tx(5) + ",0,4000,0,u", tx(4) + ",1,4100,0,u"},
+		{tx(5) + ",0,4000,0,u", tx(4) + ",1,4100,0,u", tx(4) + ",0,4200,0,u"},
+		{tx(5) + ",1,4000,0,u", tx(5) + ",0,4100,0,u", tx(3) + ",0,4300,1000"},
+		{tx(5) + ",0,4000,0,u", tx(4) + ",1,4100,0,u", tx(3) + ",0,4300,1000", tx(2) + ",0,4400,1000"},
+		{tx(5) + ",0,4000,0,u", tx(4) + ",1,4100,0,u", tx(4) + ",0,4200,0,u", tx(3) + ",0,4300,1001"},
+		{tx(5) + ",0,4000,1000,u", tx(4) + ",0,4100,1000,u", tx(3) + ",0,4300,1000"}, // unconfirmed although a block time is present
+	}
+	pu := "9000," + r1 + "," + s1
+	for _, set := range ucSets {
+		first := append([]string{}, set...)
+		c16Permute(set, func(p []string) {
+			g.Emit("utxos", joinOr(p, ";"))
+			g.Emit("utxoperm", joinOr(first, ";"), joinOr(p, ";"))
+			g.Emit("buildperm", "1", cid, br, pu, joinOr(first, ";"), joinOr(p, ";"))
+		})
+	}
+	// larger sets (sort.Slice leaves insertion sort above 12 elements): 14 unconfirmed + 4 confirmed, shuffled
+	for i := 0; i < g.Count(6, 60); i++ {
+		set := []string{}
+		for k := 0; k < 14; k++ {
+			set = append(set, fmt.Sprintf("%s,%d,%d,0,u", tx(20+k/2), k%2, 1000+k))
+		}
+		for k := 0; k < 4; k++ {
+			set = append(set, fmt.Sprintf("%s,0,%d,%d", tx(40+k), 2000+k, 1000+k%2))
+		}
+		l1, l2 := c16Shuffled(g, set), c16Shuffled(g, set)
+		g.Emit("utxos", joinOr(l1, ";"))
+		g.Emit("utxoperm", joinOr(l1, ";"), joinOr(l2, ";"))
+		g.Emit("buildperm", "1", cid, br, pu, joinOr(l1, ";"), joinOr(l2, ";"))
 	}
 	// --- sort: every permutation of small sets with ties on block time, txid, and both
 	base := [][]string{
